@@ -49,6 +49,14 @@ CLAIMED = {
   "Deductive proof, for all byte strings, of the composite-key encoding primitives of db19/index/ixkey: encode appends an escape image in which every zero byte is followed by a one (so a field contains no separator 0,0 and never ends in 0), preserves the buffer prefix and copies zero-free fields verbatim; Encode; Encoder.Add places the separator 0,0 exactly between fields; Encoder.String removes only trailing separators (an even number of zero bytes) and nothing else; HasPrefix is byte-wise prefix ending at a field boundary; SplitPrefixSuffix returns a prefix and a suffix of the key, the prefix without trailing separators, never indexing out of range; Cksize/Cklen panic exactly above the size limit. Loop invariants, frames, bounds and termination discharged.",
   "Scope: the unambiguity half (escaping/separators/trimming/prefix tests). NOT covered yet: the order-preservation lemma (lexicographic order of keys = order of value tuples), Spec.Key/Spec.Compare (need Record.GetRaw), JoinPrefixSuffix, Decode1, TruncFunc, rangeEnd. Assumed: strings.IndexByte/HasSuffix/Contains, hacks.BStoS (unsafe, buffer not modified afterwards), fmt.Sprintf effect-free.",
   "DESIGN.md §4 C12"),
+ "C33": (
+  "Deductive proof of the date arithmetic that is not delegated to Go's time package: the seven field accessors against the bit layout; NewDate/DateTime pack and validate; the packing is exact and positional for all valid field values (bit-vector lemmas), and the unsigned order of the packed (date, time) pair is the lexicographic (chronological) order of the fields (order lemmas), so SuDate.Compare / CompareSuTimestamp are chronological (with the class order for other values and the extra byte last); julianDayNumber equals the closed formula and the lemmas jdn_next_day / jdn_next_month / jdn_next_year show it is a strictly consecutive day count on the proleptic Gregorian calendar (month lengths, 4/100/400 leap rule) for years 0..3000, hence MinusDays counts calendar days; AddMs fast path changes only the millisecond field and yields a later date; WithoutMs; timeAsMs; DateFromLiteral/nsub never index out of range.",
+  "Assumed and listed: Go's time package (valid's day-of-month check, Plus/NormalizeDate carry arithmetic, WeekDay, UnixMilli) behaves as the proleptic Gregorian calendar; the closed-world fact that only SuDate and SuTimestamp report types.Date; strings.IndexRune/strconv.Atoi library contracts. DateFromLiteral requires a non-empty string (both callers guarantee it). ParseDate/Format (pattern driven) and the String()/literal round trip are NOT covered.",
+  "DESIGN.md §4 C33"),
+ "C34": (
+  "Deductive proof of the two lock-protected timestamp steps as atomic transitions: server side db19.Timestamp returns the cursor and strictly advances it (to +5 ms when the millisecond field is below 500, else +1 ms, always a valid later date), so the returned value and the window it reserves lie below every later value; client side Thread.Timestamp preserves the state invariant (limit in {0,5,256}, valid base, millisecond headroom), on the fast path returns either the previous value plus exactly 1 ms (at most 4 times per fetched base, staying on AddMs's fast path) or (base, extra) with extra = 1..255 strictly increasing and never 0, and otherwise fetches a fresh base and resets the block.",
+  "Each function body runs under its tsLock and is verified as one sequential atomic step (sync.Mutex trusted); the induction over arbitrary sequences of these steps (uniqueness across all clients: windows are disjoint because the server cursor passes every reserved window) is argued from these post-conditions, not machine-checked. Assumed: the client's th.Dbms().Timestamp() returns what the server's Timestamp returned (protocol, C40 territory); the ticker's 'only forwards' update and tsExpire run in goroutines and are not modelled; Now() and Go's time arithmetic (Plus) trusted.",
+  "DESIGN.md §4 C34"),
 }
 
 NA = {
